@@ -119,7 +119,8 @@ class Highlighter(object):
                 if diff > 1:
                     lines += [""] * (diff - 1)
 
-                line += self._chunk(current_type, buffer.rstrip("\n"))
+                if current_type is not None:
+                    line += self._chunk(current_type, buffer.rstrip("\n"))
 
                 # New line
                 lines.append(line)
